@@ -202,7 +202,8 @@ def mutate(kind, kw, name, r):
     elif name == "rs_zero":
         kw["rs"] = [0.0, -0.0, 0][i0 % 3]
     elif name == "rs_list_nonnumber":
-        kw["rs"] = [[0.1, "a"], ["x"], [0.1, None, 0.2], [[0.1], 0.2]][i0 % 4]
+        kw["rs"] = [[0.1, "a"], ["x"], [0.1, None, 0.2], [[0.1], 0.2],
+                    [[0.05], [0.08]], [[0.1, 0.2], [0.3, 0.4]]][i0 % 6]
         kw.pop("vdrop", None)
     elif name == "t_missing_key":
         t.pop(["vi", "io", zk][i0 % 3])
